@@ -247,7 +247,7 @@ class _ImmutableTaskList:
         """
         if key is not None:
             if callable(key):
-                return _ImmutableTaskList([t for t in self if key(t)])
+                return _ImmutableTaskList([t for t in self if key(t)])(**kwargs)
             raise RuntimeError(f"Unsupported key type: {type(key)}")
 
         if kwargs is None:
